@@ -5,14 +5,16 @@
     signature.go   NewSignedBlob (hash chosen by the modulus size, RSA-PSS)
     psbbinary.go   newPSPBinary, getSignedBlob (uint32 range arithmetic — wrap modelled)
     pspentries.go  ValidatePSPEntry
-    biosentries.go ValidateRTM (concatenation; `append` onto a sub-slice of the image), GetPSBSignBIOSKey
+    biosentries.go ValidateRTM (concatenation of volume and directories), GetPSBSignBIOSKey
 
   Directory tables (which entry lives where) belong to pkg/amd/manifest (property C17): the
   routines below take the located entries as (offset, length) ranges of the image.
   The model follows the code as repaired by fixes/C16-psb-exponent-range.diff (`Key.Get`
   rejects an exponent that does not fit crypto/rsa instead of dropping its upper bytes) and
   fixes/C16-token-signed-length.diff (the signed prefix of a key token is header + exponent +
-  modulus as parsed, not `64 + 2·ModulusSize/8` in uint32).
+  modulus as parsed, not `64 + 2·ModulusSize/8` in uint32) and fixes/C16-rtm-append-copy.diff
+  (`ValidateRTM` copies the volume before it appends the directories; it used to append in place
+  onto a sub-slice of the image — that model lives on in Crypto/RtmInPlace.lean).
   Core Lean only.
 -/
 import FianoModel.Crypto.Prims
@@ -309,46 +311,131 @@ def psbSignBIOSKey (ks : KeySet) : Except Err Key :=
 
 /-! ### ValidateRTM -/
 
-/-- Go `append(s, x...)` where `s = img[a:b]` is a sub-slice of an image whose capacity ends at
-    `|img|`: in place (the image is overwritten after `b`) when it fits, else a fresh array.
-    State: the image, the accumulated slice contents, and — while still aliased — its end. -/
-structure Acc where
-  img   : Bytes
-  buf   : Bytes
-  alias : Option Nat     -- `some e`: buf is `img[_ : e]`, still backed by the image
-  deriving DecidableEq, Repr, Inhabited
+/-- the boundary checks of `ValidateRTM` — `GetRangeBytes` for the RTM volume and for the signature
+    entry (`end := start + length` in uint64), `checkBoundaries` for the directory of the level and,
+    at level 2, for the level-1 directory: a function of the image *length* only -/
+def rtmBounds (len level : Nat) (rtm sig dir1 dirL : Nat × Nat) : Bool :=
+  checkBoundaries rtm.1 ((rtm.1 + rtm.2) % 2 ^ 64) len && checkBoundaries sig.1 ((sig.1 + sig.2) % 2 ^ 64) len &&
+  checkBoundaries dirL.1 ((dirL.1 + dirL.2) % 2 ^ 64) len &&
+  (level != 2 || checkBoundaries dir1.1 ((dir1.1 + dir1.2) % 2 ^ 64) len)
 
-def Acc.append (a : Acc) (x : Bytes) : Acc :=
-  match a.alias with
-  | some e =>
-    if e + x.length ≤ a.img.length then
-      { img := splice a.img e x, buf := a.buf ++ x, alias := some (e + x.length) }
-    else { a with buf := a.buf ++ x, alias := none }
-  | none => { a with buf := a.buf ++ x }
-
-/-- the last steps of `ValidateRTM`: append the directory of the requested level (read from the
-    image as the previous append left it), then verify; the signature entry is a slice of the
-    image and is read after the appends -/
-def rtmFinish (P : Prims) (a1 : Acc) (sig dirL : Nat × Nat) (oem : Key) : Except Err Unit × Bytes :=
-  (newSignedBlob P (slice (a1.append (slice a1.img dirL.1 dirL.2)).img sig.1 sig.2).reverse
-      (a1.append (slice a1.img dirL.1 dirL.2)).buf oem,
-   (a1.append (slice a1.img dirL.1 dirL.2)).img)
+/-- the signed data of the RTM volume: volume ‖ [level-1 directory] ‖ directory of the level -/
+def rtmSigned (img : Bytes) (level : Nat) (rtm dir1 dirL : Nat × Nat) : Bytes :=
+  slice img rtm.1 rtm.2 ++ (if level = 2 then slice img dir1.1 dir1.2 else []) ++ slice img dirL.1 dirL.2
 
 /-- `ValidateRTM` after the entries were located: RTM volume, its signature, BIOS directory of
     level 1 and of the requested level (ranges of the image), and the OEM key.
     `none` = the function returns an error (a boundary check fails); otherwise the verdict carried
-    by the result and the image as `ValidateRTM` leaves it. -/
+    by the result and the image as `ValidateRTM` leaves it.
+
+    As repaired by fixes/C16-rtm-append-copy.diff: the volume is copied before the directories are
+    appended, so the signed data is the plain concatenation and the caller's image is not written.
+    (Before the repair the directories were appended *in place* onto the sub-slice of the image that
+    holds the volume: `Crypto/RtmInPlace.lean` keeps that model and shows what it got wrong.) -/
 def validateRTM (P : Prims) (img : Bytes) (level : Nat) (rtm sig dir1 dirL : Nat × Nat) (oem : Key) :
     Option (Except Err Unit × Bytes) :=
-  -- ExtractBIOSEntry for the volume and the signature (GetRangeBytes), directory boundary checks
-  if checkBoundaries rtm.1 ((rtm.1 + rtm.2) % 2 ^ 64) img.length = false then none
-  else if checkBoundaries sig.1 ((sig.1 + sig.2) % 2 ^ 64) img.length = false then none
-  else if checkBoundaries dirL.1 ((dirL.1 + dirL.2) % 2 ^ 64) img.length = false then none
-  else if level = 2 then
-    if checkBoundaries dir1.1 ((dir1.1 + dir1.2) % 2 ^ 64) img.length = false then none
-    else some (rtmFinish P
-      (Acc.append { img := img, buf := slice img rtm.1 rtm.2, alias := some (rtm.1 + rtm.2) } (slice img dir1.1 dir1.2))
-      sig dirL oem)
-  else some (rtmFinish P { img := img, buf := slice img rtm.1 rtm.2, alias := some (rtm.1 + rtm.2) } sig dirL oem)
+  if rtmBounds img.length level rtm sig dir1 dirL = false then none
+  else some (newSignedBlob P (slice img sig.1 sig.2).reverse (rtmSigned img level rtm dir1 dirL) oem, img)
+
+/-! ## `GetKeys` with the key set as Go leaves it, and the whole-image compositions -/
+
+/-! ### the key database without the key set -/
+
+/-- the keys `NewKeyFromDatabase` yields one after the other on the rest `b` of the database, up to
+    the first entry it refuses -/
+def dbEntries : Nat → Bytes → List Key
+  | 0, _ => []
+  | fuel + 1, b =>
+    if b.length = 0 then []
+    else match parseDBKey b with
+      | .error _ => []
+      | .ok (k, n) => k :: dbEntries fuel (b.drop n)
+
+/-- the keys of a key database body (80-byte header, then the entries) -/
+def dbKeysOf (body : Bytes) : List Key :=
+  if body.length < 80 then [] else dbEntries (body.length + 1) (body.drop 80)
+
+/-! ### `GetKeys` with the key set as Go leaves it -/
+
+/-- `parseKeyDatabase`'s loop on the shared key set: the set as it is when the loop stops, and the
+    error if it stopped on one -/
+def dbLoopAll : Nat → Bytes → KeySet → KeySet × Option Err
+  | 0, _, ks => (ks, some .format)
+  | fuel + 1, b, ks =>
+    if b.length = 0 then (ks, none)
+    else match parseDBKey b with
+      | .error e => (ks, some e)
+      | .ok (k, n) =>
+        match ks.addKey k .keyDB with
+        | .error e => (ks, some e)
+        | .ok ks' => dbLoopAll fuel (b.drop n) ks'
+
+def parseKeyDatabaseAll (db : Bytes) (ks : KeySet) : KeySet × Option Err :=
+  if db.length < 80 then (ks, some .format) else dbLoopAll (db.length + 1) (db.drop 80) ks
+
+/-- `getKeysFromDatabase` on the key set handed in by `GetKeys` (empty) -/
+def getKeysFromDatabaseAll (P : Prims) (rootEntry dbEntry : Bytes) : KeySet × Option Err :=
+  match newRootKey rootEntry with
+  | .error e => ([], some e)
+  | .ok root =>
+    match KeySet.addKey [] root .amdRoot with
+    | .error e => ([], some e)
+    | .ok ks =>
+      match getSignedBlob P dbEntry ks with
+      | .error e => (ks, some e)
+      | .ok signed => parseKeyDatabaseAll (signed.drop pspHeaderSize) ks
+
+/-- `GetKeys`: the key set it returns and the error it returns with it -/
+def getKeysAll (P : Prims) (rootEntry dbEntry ablEntry : Bytes) (oemEntry : Option Bytes) : KeySet × Option Err :=
+  match getKeysFromDatabaseAll P rootEntry dbEntry with
+  | (ks, some e) => (ks, some e)
+  | (ks, none) =>
+    match newTokenKey P ablEntry ks with
+    | .error e => (ks, some e)
+    | .ok abl =>
+      match ks.addKey abl .abl with
+      | .error e => (ks, some e)
+      | .ok ks1 =>
+        match oemEntry with
+        | none => (ks1, none)
+        | some oe =>
+          match newTokenKey P oe ks1 with
+          | .error e => (ks1, some e)
+          | .ok oem =>
+            match ks1.addKey oem .oem with
+            | .error e => (ks1, some e)
+            | .ok ks2 => (ks2, none)
+
+/-- the error-or-result view of a (key set, error) pair -/
+def toExcept (r : KeySet × Option Err) : Except Err KeySet :=
+  match r.2 with
+  | none => .ok r.1
+  | some e => .error e
+
+/-! ### image level (entries located by the directory parser, property C17) -/
+
+/-- `GetKeys` on an image whose four entries were located by the directory parser (property C17);
+    an entry that does not lie in the image is an error, like every other failure -/
+def getKeysImg (P : Prims) (img : Bytes) (rootR dbR ablR : Nat × Nat) (oemR : Option (Nat × Nat)) : Except Err KeySet :=
+  match rangeBytes img rootR.1 rootR.2, rangeBytes img dbR.1 dbR.2, rangeBytes img ablR.1 ablR.2 with
+  | some r, some d, some a =>
+    match oemR with
+    | none => getKeys P r d a none
+    | some oR =>
+      match rangeBytes img oR.1 oR.2 with
+      | some o => getKeys P r d a (some o)
+      | none => .error .format
+  | _, _, _ => .error .format
+
+/-- `ValidateRTM` on an image with located entries: `GetPSBSignBIOSKey` (= `GetKeys`, then the single
+    OEM key with usage PSBSignBIOS), then the signature check.  `none` = the function returns an error. -/
+def validateRTMFull (P : Prims) (img : Bytes) (level : Nat) (rootR dbR ablR : Nat × Nat) (oemR : Option (Nat × Nat))
+    (rtm sig dir1 dirL : Nat × Nat) : Option (Except Err Unit × Bytes) :=
+  match getKeysImg P img rootR dbR ablR oemR with
+  | .error _ => none
+  | .ok ks =>
+    match psbSignBIOSKey ks with
+    | .error _ => none
+    | .ok oem => validateRTM P img level rtm sig dir1 dirL oem
 
 end Fiano.Crypto.Psb
